@@ -30,7 +30,7 @@ ASSUMPTIONS = ["first column compared with the requested initial state cast to t
                "positivity: a value of exactly 0 is accepted for exponential-type prices only as underflow, i.e. when no neighbour on the same "
                "path exceeds 1e-20",
                "half precisions: only default-scale parameters; missing CPU kernels (NotImplementedError / 'not implemented for') are tolerated and counted"]
-PROBES = ["float64_accuracy_checked", "simulate_aborted", "generator_aborted", "qe_psi_le_1.5", "qe_psi_gt_1.5", "init_nondefault", "init_default", "resim_shape_change", "via_derivative",
+PROBES = ["two_underliers", "float64_accuracy_checked", "simulate_aborted", "generator_aborted", "qe_psi_le_1.5", "qe_psi_gt_1.5", "init_nondefault", "init_default", "resim_shape_change", "via_derivative",
           "via_compute_loss", "via_price", "via_fit", "via_lazy_materialisation", "default_dtype_flip", "cast_then_simulate",
           "n_steps_1", "n_steps_2", "half_precision", "half_kernel_missing", "generator_direct", "float64", "volatility_checked_after_cast", "init_bare_scalar"]
 BUFFERS = {"BrownianStock": ["spot"], "HestonStock": ["spot", "variance"], "CIRRate": ["spot"], "VasicekRate": ["spot"],
@@ -79,10 +79,18 @@ def generate(rng):
     m = {"id": "m0", "kind": "lazy_mlp" if lazy else "linear", "in": 1, "out": 1, "init_seed": rng.seed31(), "n_layers": 1, "n_units": 2}
     h = {"id": "h0", "model": "m0", "inputs": ["underlier_spot"], "criterion": None}
     world = {"primaries": [prim], "derivatives": [d], "models": [m], "criteria": [], "hedgers": [h]}
+    two = rng.chance(0.25)
+    if two:
+        # a user derivative written on two underliers (a spread): its simulate() must reach both
+        k2 = rng.choice(PRIMARY_KINDS)
+        world["primaries"].append({"id": "p1", "kind": k2, "params": gen_primary_params(rng, k2, dt=dt, cost=0.0), "dtype": prim["dtype"]})
     ops = []
     for _ in range(rng.randint(3, 10)):
         k = rng.wchoice([("simulate", 5), ("via", 3 if steps >= 1 else 0), ("cast", 1), ("default_dtype", 1), ("generate", 3), ("failed", 1.5)])
         init = gen_init(rng, kind, params) if rng.chance(0.4) else None
+        if two and k == "simulate" and rng.chance(0.4):
+            ops.append({"op": "simulate_spread", "n_paths": rng.choice([1, 2, 3, 7]), "torch_seed": rng.seed31()})
+            continue
         if k == "failed":
             # F8: a simulation is aborted half-way (the caller's engine / sigma_fn raises, or an argument is rejected deep inside):
             # the instrument keeps its previous complete sample (or none), and nothing global is left changed
@@ -386,8 +394,15 @@ def _execute(program, stats, hist):
     d = world.derivatives["d0"]
     h = world.hedgers["h0"]
     w = SimWatcher(p, pspec["kind"], pspec["params"], stats, hist)
+    w2 = None
+    if "p1" in world.primaries:
+        p1spec = program["world"]["primaries"][1]
+        w2 = SimWatcher(world.primaries["p1"], p1spec["kind"], p1spec["params"], stats, hist)
     for op in program["ops"]:
         try:
+            if op.get("op") == "simulate_spread":
+                _spread_op(op, world, stats, hist, w, w2, d)
+                continue
             _one_op(op, world, stats, hist, p, d, h, w, st_mod)
         except Violation as v:
             w.trigger, w.expect = "direct", None
@@ -395,6 +410,41 @@ def _execute(program, stats, hist):
             if not stats.known_hit(v):
                 raise
     return stats, hist
+
+
+def _spread_op(op, world, stats, hist, w, w2, d0):
+    from pfhedge.instruments import BaseDerivative
+
+    class Spread(BaseDerivative):
+        def __init__(self, a, b, maturity):
+            super().__init__()
+            self.register_underlier("first", a)
+            self.register_underlier("second", b)
+            self.maturity = maturity
+
+        def payoff_fn(self):
+            return self.ul(0).spot[..., -1] - self.ul(1).spot[..., -1]
+    seq = hist.seq
+    stats.op("simulate_spread")
+    if w2 is None:
+        return
+    sp = Spread(w.p, w2.p, d0.maturity)
+    n0, n1 = len(w.calls), len(w2.calls)
+    torch.manual_seed(op["torch_seed"])
+    for x in (w, w2):
+        x.trigger, x.expect = "derivative", {"n_paths": op["n_paths"], "init_state": None}
+    try:
+        sp.simulate(n_paths=op["n_paths"])
+    finally:
+        for x in (w, w2):
+            x.trigger, x.expect = "direct", None
+    stats.checks += 1
+    stats.probe("two_underliers")
+    if len(w.calls) != n0 + 1 or len(w2.calls) != n1 + 1:
+        raise Violation(ID, "underlier_not_simulated", "derivative.simulate[two underliers]", {
+            "simulate_calls_first": len(w.calls) - n0, "simulate_calls_second": len(w2.calls) - n1,
+            "note": "simulate() of a derivative replaces the buffers of every underlier"}, seq)
+    hist.add(op="simulate_spread", n_paths=op["n_paths"])
 
 
 def _one_op(op, world, stats, hist, p, d, h, w, st_mod):
